@@ -192,8 +192,9 @@ struct Report {
   int32_t ops_done = 0;              // operations completely performed
   int32_t in_op = -1;                // operation in progress at the crash (-1: none)
   int64_t io_calls = 0;
-  uint32_t max_observe[NRES];        // highest Observe value sent per resource (0xffffffff = none)
+  uint32_t max_observe[NRES];        // highest Observe value sent per resource in this life (after its last deletion)
   uint32_t have_observe[NRES];
+  uint32_t deleted[NRES];            // the resource was deleted during this life: earlier values belong to a previous incarnation
 };
 Report REP;
 int REP_FD = -1;
@@ -209,7 +210,7 @@ void scan_trace_into_report() {
     if (!simh::parse(e.data, &m) || (m.code >> 5) != 2) continue;
     // 2.02 Deleted: this incarnation of the resource (and every observation of it) is over; a resource created later under the same
     // name is a new one and counts from the beginning
-    if (m.code == 0x42 && m.token.size() == 2 && m.token[0] == 0x02 && m.token[1] < NRES) { REP.have_observe[m.token[1]] = 0; continue; }
+    if (m.code == 0x42 && m.token.size() == 2 && m.token[0] == 0x02 && m.token[1] < NRES) { REP.have_observe[m.token[1]] = 0; REP.deleted[m.token[1]] = 1; continue; }
     const ref::Opt *ob = simh::find_opt(m, 6);
     if (!ob || m.token.size() != 2) continue;
     unsigned r = m.token[1] - 0xb0;
@@ -225,7 +226,11 @@ void write_report() {
 }
 
 // runs in the forked child; never returns
-[[noreturn]] void child_run(const Files &f, unsigned save_freq, const std::vector<Op> &ops, long crash_at, bool crash_after, bool orderly_stop, int fd) {
+[[noreturn]] void child_run(const Files &f, unsigned save_freq, const std::vector<Op> &ops, long crash_at, bool crash_after, bool orderly_stop, int fd, unsigned life) {
+  // a restarted process does not find its objects at the addresses of the previous one
+  static volatile char *padding;
+  padding = (volatile char *)malloc(4096 * (1 + 3 * life) + 17 * life);
+  if (padding) padding[0] = 1;
   REP_FD = fd;
   memset(&REP, 0, sizeof REP);
   REP.in_op = -1;
@@ -234,7 +239,7 @@ void write_report() {
   World w;
   CHILD_W = &w;
   app.w = &w;
-  seed_prng(11);
+  seed_prng(11 + life);
   IO.crash_at = crash_at;
   IO.crash_after = crash_after;
   IO.on_crash = write_report;
@@ -247,7 +252,7 @@ void write_report() {
     p->on_rx = [](World &ww, Peer &pp, const Datagram &d) { if (d.data.size() >= 4 && (d.data[0] & 0x30) == 0 && d.data[1] != 0) ww.peer_send(&pp, d.src, simh::ack((uint16_t)(d.data[2] << 8 | d.data[3]))); };
     peers.push_back(p);
   }
-  uint16_t mid = 0x100;
+  uint16_t mid = (uint16_t)(0x100 + 0x1000 * life);
   auto send = [&](unsigned o, uint8_t code, unsigned r, int observe, const Bytes &token) {
     ref::Msg m;
     m.type = 0; m.code = code; m.mid = mid++; m.token = token;
@@ -301,18 +306,20 @@ std::vector<Op> gen_history(Tape &t) {
   return ops;
 }
 
-// fixed catalogue for the enumeration tier
-std::vector<Op> catalogue(unsigned h, unsigned *save_freq) {
+// fixed catalogue for the enumeration tier (each inner list is one life of the server: it is killed after its last operation and restarted)
+std::vector<std::vector<Op>> catalogue(unsigned h, unsigned *save_freq) {
   *save_freq = 1;
   switch (h) {
-  case 0: return {{0, 0, 0, 0}, {0, 1, 0, 0}, {2, 0, 0, 0}, {4, 0, 0, 3}};
-  case 1: *save_freq = 4; return {{0, 0, 0, 0}, {2, 0, 0, 0}, {2, 0, 1, 0}, {4, 0, 0, 9}, {3, 0, 0, 0}, {4, 0, 0, 2}};
-  case 2: return {{0, 0, 0, 0}, {0, 1, 0, 0}, {0, 2, 0, 0}, {2, 1, 1, 0}, {1, 1, 0, 0}, {4, 0, 0, 1}};
-  case 3: *save_freq = 10; return {{0, 1, 0, 0}, {2, 1, 2, 0}, {4, 1, 0, 12}, {0, 0, 0, 0}, {2, 0, 2, 0}, {4, 0, 0, 3}};
-  default: *save_freq = 3; return {{0, 0, 0, 0}, {2, 0, 0, 0}, {4, 0, 0, 5}, {1, 0, 0, 0}, {0, 0, 0, 0}, {2, 0, 1, 0}, {4, 0, 0, 4}};
+  case 0: return {{{0, 0, 0, 0}, {0, 1, 0, 0}, {2, 0, 0, 0}, {4, 0, 0, 3}}};
+  case 1: *save_freq = 4; return {{{0, 0, 0, 0}, {2, 0, 0, 0}, {2, 0, 1, 0}, {4, 0, 0, 9}, {3, 0, 0, 0}, {4, 0, 0, 2}}};
+  case 2: return {{{0, 0, 0, 0}, {0, 1, 0, 0}, {0, 2, 0, 0}, {2, 1, 1, 0}, {1, 1, 0, 0}, {4, 0, 0, 1}}};
+  case 3: *save_freq = 10; return {{{0, 1, 0, 0}, {2, 1, 2, 0}, {4, 1, 0, 12}, {0, 0, 0, 0}, {2, 0, 2, 0}, {4, 0, 0, 3}}};
+  case 4: *save_freq = 3; return {{{0, 0, 0, 0}, {2, 0, 0, 0}, {4, 0, 0, 5}, {1, 0, 0, 0}, {0, 0, 0, 0}, {2, 0, 1, 0}, {4, 0, 0, 4}}};
+  case 5: return {{{0, 0, 0, 0}, {2, 0, 0, 0}, {2, 0, 1, 0}, {4, 0, 0, 2}}, {{3, 0, 0, 0}, {4, 0, 0, 2}}, {{4, 0, 0, 1}, {0, 1, 0, 0}}};
+  default: *save_freq = 5; return {{{0, 0, 0, 0}, {0, 1, 0, 0}, {2, 1, 2, 0}, {4, 1, 0, 7}}, {{2, 0, 1, 0}, {1, 1, 0, 0}, {4, 0, 0, 3}, {3, 0, 1, 0}}};
   }
 }
-const unsigned NCAT = 5;
+const unsigned NCAT = 7;
 
 std::string g_base;   // scratch directory of this process
 
@@ -332,45 +339,60 @@ void verif_init() {
 namespace {
 
 // one (history, crash point): fork the child, then restart and judge.  Returns HELD / VIOLATION; fills *io_calls.
-int one_point(Info *info, const std::vector<Op> &ops, unsigned save_freq, long crash_at, bool crash_after, bool orderly, long *io_calls, bool *inside_update, std::string *desc) {
+int one_point(Info *info, const std::vector<std::vector<Op>> &lives, unsigned save_freq, long crash_at, bool crash_after, bool orderly, long *io_calls, bool *inside_update, std::string *desc) {
   Files f;
   f.dir = g_base;
   f.dyn = f.dir + "/dyn"; f.obs = f.dir + "/obs"; f.cnt = f.dir + "/cnt";
   for (auto p : {f.dyn, f.obs, f.cnt, f.dyn + ".tmp", f.obs + ".tmp", f.cnt + ".tmp"}) unlink(p.c_str());
-  int pfd[2];
-  if (pipe(pfd) != 0) return OUT_OF_DOMAIN;
-  fflush(nullptr);
-  pid_t pid = fork();
-  if (pid < 0) { close(pfd[0]); close(pfd[1]); return OUT_OF_DOMAIN; }
-  if (pid == 0) {
-    close(pfd[0]);
-    alarm(60);
-    child_run(f, save_freq, ops, crash_at, crash_after, orderly, pfd[1]);
-  }
-  close(pfd[1]);
-  Report rep;
-  memset(&rep, 0, sizeof rep);
-  ssize_t got = read(pfd[0], &rep, sizeof rep);
-  close(pfd[0]);
-  int st = 0;
-  waitpid(pid, &st, 0);
-  bool crashed = WIFEXITED(st) && WEXITSTATUS(st) == 77;
-  bool finished = WIFEXITED(st) && WEXITSTATUS(st) == 0;
-  char hb[160];
-  snprintf(hb, sizeof hb, "crash %s call %ld (%s); ", crash_after ? "after" : "before", crash_at, crashed ? ("in op " + std::to_string(rep.in_op)).c_str() : finished ? "history completed" : "child died");
-  *desc = hb;
-  if (!crashed && !finished) {
-    info->fail("the server process died by itself while running the history (status 0x%x) - %s", st, hb);
-    return VIOLATION;
-  }
-  if (got != (ssize_t)sizeof rep) { info->fail("no report from the child"); return VIOLATION; }
-  *io_calls = (long)rep.io_calls;
-  *inside_update = crashed && rep.in_op >= 0;
-  // model states before and after the interrupted operation
   Model before, after;
-  for (int i = 0; i < rep.ops_done; i++) before.apply(ops[(size_t)i]);
-  after = before;
-  if (crashed && rep.in_op >= 0 && (size_t)rep.in_op < ops.size()) after.apply(ops[(size_t)rep.in_op]);
+  uint32_t acc_max[NRES] = {0, 0, 0};
+  bool acc_have[NRES] = {false, false, false};
+  Report rep;
+  char hb[160];
+  bool crashed = false;
+  for (size_t li = 0; li < lives.size(); li++) {
+    bool last = li + 1 == lives.size();
+    const std::vector<Op> &ops = lives[li];
+    int pfd[2];
+    if (pipe(pfd) != 0) return OUT_OF_DOMAIN;
+    fflush(nullptr);
+    pid_t pid = fork();
+    if (pid < 0) { close(pfd[0]); close(pfd[1]); return OUT_OF_DOMAIN; }
+    if (pid == 0) {
+      close(pfd[0]);
+      alarm(60);
+      // earlier lives end abruptly after their last operation (a kill between two operations)
+      child_run(f, save_freq, ops, last ? crash_at : -1, last ? crash_after : false, last ? orderly : false, pfd[1], (unsigned)li);
+    }
+    close(pfd[1]);
+    memset(&rep, 0, sizeof rep);
+    ssize_t got = read(pfd[0], &rep, sizeof rep);
+    close(pfd[0]);
+    int st = 0;
+    waitpid(pid, &st, 0);
+    crashed = WIFEXITED(st) && WEXITSTATUS(st) == 77;
+    bool finished = WIFEXITED(st) && WEXITSTATUS(st) == 0;
+    snprintf(hb, sizeof hb, "life %zu: crash %s call %ld (%s); ", li, crash_after ? "after" : "before", last ? crash_at : -1L, crashed ? ("in op " + std::to_string(rep.in_op)).c_str() : finished ? "completed" : "child died");
+    *desc += hb;
+    if (!crashed && !finished) {
+      info->fail("the server process died by itself while running the history (status 0x%x) - %s", st, desc->c_str());
+      return VIOLATION;
+    }
+    if (got != (ssize_t)sizeof rep) { info->fail("no report from the child"); return VIOLATION; }
+    for (unsigned r = 0; r < NRES; r++) {
+      if (rep.deleted[r]) acc_have[r] = false;
+      if (rep.have_observe[r] && (!acc_have[r] || serial_gt(rep.max_observe[r], acc_max[r]))) { acc_max[r] = rep.max_observe[r]; acc_have[r] = true; }
+    }
+    if (last) {
+      *io_calls = (long)rep.io_calls;
+      *inside_update = crashed && rep.in_op >= 0;
+    }
+    for (int i = 0; i < rep.ops_done; i++) before.apply(ops[(size_t)i]);
+    after = before;
+    if (crashed && rep.in_op >= 0 && (size_t)rep.in_op < ops.size()) after.apply(ops[(size_t)rep.in_op]);
+  }
+  for (unsigned r = 0; r < NRES; r++) { rep.max_observe[r] = acc_max[r]; rep.have_observe[r] = acc_have[r] ? 1 : 0; }
+  snprintf(hb, sizeof hb, "%s", desc->c_str());
   // ---- restart ----
   App app;
   APP = &app;
@@ -449,22 +471,30 @@ int one_point(Info *info, const std::vector<Op> &ops, unsigned save_freq, long c
 
 int verif_case(const uint8_t *tape, size_t tlen, Info *info) {
   Tape t(tape, tlen);
-  std::vector<Op> ops;
+  std::vector<std::vector<Op>> lives;
   unsigned save_freq;
   std::vector<std::pair<long, bool>> points;
   bool enumerated = tlen >= 1 && tape[0] == 0xFF;
   if (enumerated) {
     t.u8();
     unsigned h = t.u8() % NCAT;
-    ops = catalogue(h, &save_freq);
+    lives = catalogue(h, &save_freq);
     long k = (long)t.u16();
     points.push_back({k, t.u8() & 1});
   } else {
     save_freq = t.range(1, 10);
-    ops = gen_history(t);
+    std::vector<Op> ops = gen_history(t);
+    // 1..3 lives: the server is killed between two operations and restarted
+    unsigned nl = (unsigned)t.pick({3, 3, 1}) + 1;
+    size_t at = 0;
+    for (unsigned l = 0; l < nl && at < ops.size(); l++) {
+      size_t n = l + 1 == nl ? ops.size() - at : t.range(1, (uint32_t)(ops.size() - at));
+      lives.push_back(std::vector<Op>(ops.begin() + (long)at, ops.begin() + (long)(at + n)));
+      at += n;
+    }
   }
   std::string hist = "save_freq=" + std::to_string(save_freq) + " ";
-  for (auto &op : ops) hist += op_str(op) + " ";
+  for (size_t l = 0; l < lives.size(); l++) { if (l) hist += "| restart | "; for (auto &op : lives[l]) hist += op_str(op) + " "; }
   hist += "; ";
   int verdict = HELD;
   bool nontrivial = false;
@@ -472,8 +502,8 @@ int verif_case(const uint8_t *tape, size_t tlen, Info *info) {
   bool inside = false;
   std::string desc;
   if (!enumerated) {
-    // the crash-free run first (also gives the number of I/O calls): once ending abruptly after the last operation, once with an orderly stop
-    verdict = one_point(info, ops, save_freq, -1, false, t.flag(), &n_io, &inside, &desc);
+    // the crash-free last life first (also gives the number of I/O calls): once ending abruptly after the last operation, once with an orderly stop
+    verdict = one_point(info, lives, save_freq, -1, false, t.flag(), &n_io, &inside, &desc);
     hist += desc;
     if (verdict == HELD && n_io > 0) {
       unsigned np = t.range(1, 4);
@@ -482,15 +512,17 @@ int verif_case(const uint8_t *tape, size_t tlen, Info *info) {
   }
   Model m;
   size_t max_res = 0, max_obs = 0;
-  for (auto &op : ops) { m.apply(op); max_res = std::max(max_res, m.resources.size()); max_obs = std::max(max_obs, m.observations.size()); }
+  for (auto &l : lives) for (auto &op : l) { m.apply(op); max_res = std::max(max_res, m.resources.size()); max_obs = std::max(max_obs, m.observations.size()); }
   for (auto &p : points) {
     if (verdict != HELD) break;
     long io = 0;
-    verdict = one_point(info, ops, save_freq, p.first, p.second, false, &io, &inside, &desc);
+    desc.clear();
+    verdict = one_point(info, lives, save_freq, p.first, p.second, false, &io, &inside, &desc);
     hist += desc;
-    if (enumerated && io <= p.first && verdict == HELD && !inside) { info->rs(hist); return OUT_OF_DOMAIN; }   // k beyond the history's calls
+    if (enumerated && io <= p.first && verdict == HELD && !inside) { info->rs(hist); return OUT_OF_DOMAIN; }   // k beyond the last life's calls
     if (inside && (max_res >= 2 || max_obs >= 2)) nontrivial = true;
   }
+  if (lives.size() > 1) info->label("restarted-more-than-once");
   info->nontrivial = nontrivial;
   info->rs(hist);
   info->mix(hist.data(), hist.size());
